@@ -19,7 +19,7 @@ func init() {
 			"(4) token creation is unreachable for a parent with NumUses > 0; (4b) the parent tested by that guard (and by storeCommon's parent check) is the live entry from the untainted Lookup — or the guard refuses on NumUses != 0 — and only tabled revocation/tidy/wrapping/display paths call the tainted lookups; " +
 			"(2c) once the entry was fetched, every return of CheckToken(unauth=false) hands it back, so denied and failed requests are counted; (2d) after CheckToken, handleRequest returns before the use is counted only on the relative-path and forward-to-active refusals; " +
 			"(7) sys/seal and sys/step-down count the use before the policy verdict and before acting, refuse a nil entry, test the last use on UseToken's result and revoke the token's lease before acting; " +
-			"(1b) UseTokenByID returns nothing but UseToken's results with a nil-capable error; (1c) UseToken hands the caller's entry back undecremented only for NumUses == 0; (1d) the control-group authorisation rewrites a token entry only from a re-read made under the per-token lock keyed by that token; (1e) every token entry stored while a per-token lock is held (UseToken, control groups, orphaning of children, tidy) comes from a lookupInternal executed under that lock; " +
+			"(1b) UseTokenByID returns nothing but UseToken's results with a nil-capable error; (1c) UseToken hands the caller's entry back undecremented only for NumUses == 0; (1d) the control-group authorisation rewrites a token entry only from a re-read made under the per-token lock keyed by that token; (1f) storeCommon salts entry.ID in a context switched to the namespace resolved from entry.NamespaceID and puts the entry into idView of that same namespace, and lookupInternal salts the id in the namespace whose id view it reads (writer and reader agree on the key); (1e) every token entry stored while a per-token lock is held (UseToken, control groups, orphaning of children, tidy) comes from a lookupInternal executed under that lock; " +
 			"(8) a login token's entry carries auth.NumUses on every path to its creation, and the on-read upgrade clears a legacy entry's deprecated use limit only after copying it when the new field is unset or larger.",
 		NotDecided: "the count bound under interleavings (needs the lock to be the only writer plus a schedule argument); that revocation of the lease actually completes.",
 		Run:        runC19,
